@@ -496,7 +496,7 @@ def row_strategy(draw, E: Env, year: int, used_keys: set, open_weight: int):
     cls['dist'] = dist_cls
 
     # ---------------- filter fields
-    service = _weighted(draw, [('J', 60), ('S', 15), ('Q', 15), ('V', 2), ('U', 2), ('F', 2), ('C', 2), ('G', 2)])
+    service = _weighted(draw, [('J', 60), ('S', 15), ('Q', 15), ('V', 2), ('U', 2), ('F', 2), ('C', 2), ('G', 2), ('', 2)])
     stops = _weighted(draw, [('00', 97), ('01', 2), ('02', 1)])
     operating = _weighted(draw, [('O', 57), ('', 40), ('N', 3)])
     if draw(st.integers(0, 32)) == 32:
